@@ -104,11 +104,24 @@ def simulate(cfg: CFG, env: Callable[[ast.expr], Optional[bool]], start: Optiona
     feasible path.
     """
     outcomes: List[Outcome] = []
+    budget = [60000]
 
     def walk(node: Node, trail: List[Node], seen: Dict[int, int]) -> None:
+        budget[0] -= 1
+        if budget[0] < 0:
+            from .universe import AnalysisError
+
+            raise AnalysisError("path simulation exceeded its budget (too many undecided branches)")
         if len(trail) > max_steps:
             outcomes.append(Outcome("unknown", node, trail))
             return
+        if node.kind == "test":
+            visits = seen.get(-node.id - 1, 0)
+            if visits >= 2:
+                # third arrival at the same loop test on one path: the path is a cycle
+                outcomes.append(Outcome("loop", node, trail + [node]))
+                return
+            seen = {**seen, -node.id - 1: visits + 1}
         trail = trail + [node]
         if node.id == cfg.exit.id:
             prev = trail[-2] if len(trail) > 1 else None
